@@ -31,6 +31,7 @@ theorem flags (c : Cfg) : ∀ (f : Nat) (call : Call) (w : World),
     | stmt s => cases s <;> run_cases hrun with grind [Res.andThen]
     | setAttr p v => run_cases hrun with grind [Res.andThen]
     | setPlain p v => run_cases hrun with grind [Res.andThen]
+    | setSlot p k v => run_cases hrun with grind [Res.andThen]
     | dispatch ws ev => cases ws <;> run_cases hrun with grind
     | callWatcher wt ev => run_cases hrun with grind
     | exec wt evs fl => run_cases hrun with grind
@@ -62,6 +63,7 @@ theorem setMode_subset (c : Cfg) : ∀ (f : Nat) (call : Call) (w : World),
     | stmt s => cases s <;> run_cases hrun with grind [Res.andThen]
     | setAttr p v => run_cases hrun with grind [Res.andThen]
     | setPlain p v => run_cases hrun with grind [Res.andThen]
+    | setSlot p k v => run_cases hrun with grind [Res.andThen]
     | dispatch ws ev => cases ws <;> run_cases hrun with grind
     | callWatcher wt ev => run_cases hrun with grind
     | exec wt evs fl => run_cases hrun with grind
@@ -92,6 +94,7 @@ theorem inv2 (c : Cfg) : ∀ (f : Nat) (call : Call) (w : World),
     | stmt s => cases s <;> run_cases hrun with grind [Res.andThen]
     | setAttr p v => run_cases hrun with grind [Res.andThen]
     | setPlain p v => run_cases hrun with grind [Res.andThen]
+    | setSlot p k v => run_cases hrun with grind [Res.andThen]
     | dispatch ws ev => cases ws <;> run_cases hrun with grind
     | callWatcher wt ev => run_cases hrun with grind [List.append_eq_nil_iff]
     | exec wt evs fl => run_cases hrun with grind
@@ -106,7 +109,7 @@ def Q (w : World) : Prop := w.events = [] ∧ w.queued = []
 
 /-- statement-level call kinds (what a program or a callback body can execute) and the flush -/
 def Call.stmtLevel : Call → Bool
-  | .stmts _ | .stmt _ | .setAttr .. | .setPlain .. | .update _ | .trigger _ => true
+  | .stmts _ | .stmt _ | .setAttr .. | .setPlain .. | .setSlot .. | .update _ | .trigger _ => true
   | _ => false
 
 /-- With the batching flag off: a flush empties the queues from any state, and a
@@ -131,6 +134,7 @@ theorem queues_empty (c : Cfg) : ∀ (f : Nat) (call : Call) (w : World),
     | stmt s => cases s <;> run_cases hrun with grind [Res.andThen, Call.stmtLevel]
     | setAttr p v => run_cases hrun with grind [Res.andThen, Call.stmtLevel]
     | setPlain p v => run_cases hrun with grind [Res.andThen, Call.stmtLevel]
+    | setSlot p k v => run_cases hrun with grind [Res.andThen, Call.stmtLevel]
     | dispatch ws ev => simp [Call.stmtLevel]
     | callWatcher wt ev => simp [Call.stmtLevel]
     | exec wt evs fl => simp [Call.stmtLevel]
@@ -164,6 +168,7 @@ theorem silent_in_batch (c : Cfg) : ∀ (f : Nat) (call : Call) (w : World),
     | stmt s => cases s <;> run_cases hrun with grind [Res.andThen, Call.deferring]
     | setAttr p v => run_cases hrun with grind [Res.andThen, Call.deferring]
     | setPlain p v => run_cases hrun with grind [Res.andThen, Call.deferring]
+    | setSlot p k v => run_cases hrun with grind [Res.andThen, Call.deferring]
     | dispatch ws ev => cases ws <;> run_cases hrun with grind [Call.deferring]
     | callWatcher wt ev => run_cases hrun with grind [Call.deferring]
     | exec wt evs fl => simp [Call.deferring] at hd
@@ -374,6 +379,7 @@ theorem nodupQ (c : Cfg) : ∀ (f : Nat) (call : Call) (w : World),
     | stmt s => cases s <;> run_cases hrun with grind [Res.andThen]
     | setAttr p v => run_cases hrun with grind [Res.andThen]
     | setPlain p v => run_cases hrun with grind [Res.andThen]
+    | setSlot p k v => run_cases hrun with grind [Res.andThen]
     | dispatch ws ev => cases ws <;> run_cases hrun with grind
     | callWatcher wt ev =>
       simp only [run] at hrun
@@ -419,6 +425,7 @@ theorem deferred_kept (c : Cfg) : ∀ (f : Nat) (call : Call) (w : World),
     | stmt s => cases s <;> run_cases hrun with grind [Res.andThen, Call.deferring]
     | setAttr p v => run_cases hrun with grind [Res.andThen, Call.deferring]
     | setPlain p v => run_cases hrun with grind [Res.andThen, Call.deferring]
+    | setSlot p k v => run_cases hrun with grind [Res.andThen, Call.deferring]
     | dispatch ws ev => cases ws <;> run_cases hrun with grind [Call.deferring]
     | callWatcher wt ev => run_cases hrun with grind [Call.deferring]
     | exec wt evs fl => simp [Call.deferring] at hd
@@ -566,11 +573,11 @@ theorem sortByPrec_stable (k : Int) (l : List Watcher) :
 
 /-! ### the events a watcher receives at a flush -/
 
-theorem lastFor_some {dict : List Ev} {n : Nat} {e : Ev} (h : lastFor dict n = some e) :
-    e.name = n ∧ ∃ pre post, dict = pre ++ e :: post ∧ ∀ e' ∈ post, e'.name ≠ n := by
+theorem lastFor_some {dict : List Ev} {n k : Nat} {e : Ev} (h : lastFor dict n k = some e) :
+    (e.name = n ∧ e.what = k) ∧ ∃ pre post, dict = pre ++ e :: post ∧ ∀ e' ∈ post, ¬(e'.name = n ∧ e'.what = k) := by
   unfold lastFor at h
   have h1 := List.find?_some h
-  simp only [decide_eq_true_eq] at h1
+  simp only [Bool.and_eq_true, decide_eq_true_eq] at h1
   refine ⟨h1, ?_⟩
   obtain ⟨as, bs, hsplit, hnot⟩ := List.find?_eq_some_iff_append.1 h |>.2
   refine ⟨bs.reverse, as.reverse, ?_, ?_⟩
@@ -578,17 +585,19 @@ theorem lastFor_some {dict : List Ev} {n : Nat} {e : Ev} (h : lastFor dict n = s
     simpa using this
   · intro e' he'
     have := hnot e' (List.mem_reverse.1 he')
-    simpa using this
+    intro hc
+    simp [hc.1, hc.2] at this
 
-theorem lastFor_none {dict : List Ev} {n : Nat} (h : lastFor dict n = none) : ∀ e ∈ dict, e.name ≠ n := by
+theorem lastFor_none {dict : List Ev} {n k : Nat} (h : lastFor dict n k = none) :
+    ∀ e ∈ dict, ¬(e.name = n ∧ e.what = k) := by
   unfold lastFor at h
   intro e he
   have := List.find?_eq_none.1 h e (List.mem_reverse.2 he)
   simpa using this
 
-theorem lastFor_isSome_iff (dict : List Ev) (n : Nat) :
-    (lastFor dict n).isSome = dict.any (fun e => e.name = n) := by
-  cases h : lastFor dict n with
+theorem lastFor_isSome_iff (dict : List Ev) (n k : Nat) :
+    (lastFor dict n k).isSome = dict.any (fun e => e.name = n && e.what = k) := by
+  cases h : lastFor dict n k with
   | none =>
     have := lastFor_none h
     simp only [Option.isSome_none]
@@ -604,33 +613,34 @@ theorem lastFor_isSome_iff (dict : List Ev) (n : Nat) :
     rw [List.any_eq_true]
     exact ⟨e, by rw [hd]; simp, by simpa using hn⟩
 
-/-- a watcher receives one event per watched parameter that has a queued event, in the order of
-its own parameter list -/
+/-- a watcher receives one event per watched parameter that has a queued event of the kind it
+watches, in the order of its own parameter list -/
 theorem evsFor_names (tr : Bool) (wt : Watcher) (dict : List Ev) :
-    (evsFor tr wt dict).map (·.name) = wt.params.filter (fun n => dict.any (fun e => e.name = n)) := by
+    (evsFor tr wt dict).map (·.name) =
+      wt.params.filter (fun n => dict.any (fun e => e.name = n && e.what = wt.what)) := by
   unfold evsFor
   induction wt.params with
   | nil => simp
   | cons n ps ih =>
     simp only [List.filterMap_cons, List.filter_cons]
     rw [← lastFor_isSome_iff]
-    cases h : lastFor dict n with
+    cases h : lastFor dict n wt.what with
     | none => simpa using ih
     | some e =>
-      have := (lastFor_some h).1
+      have := (lastFor_some h).1.1
       simp [typed, this, ih]
 
-/-- … namely the *last* event queued for that parameter, typed for this watcher -/
+/-- … namely the *last* event queued for that parameter (and kind), typed for this watcher -/
 theorem evsFor_mem {tr : Bool} {wt : Watcher} {dict : List Ev} {te : TEv} (h : te ∈ evsFor tr wt dict) :
-    ∃ e, lastFor dict te.name = some e ∧ te = typed tr wt e := by
+    ∃ e, lastFor dict te.name wt.what = some e ∧ te = typed tr wt e := by
   unfold evsFor at h
   obtain ⟨n, _, hn⟩ := List.mem_filterMap.1 h
-  cases hl : lastFor dict n with
+  cases hl : lastFor dict n wt.what with
   | none => simp [hl] at hn
   | some e =>
     simp only [hl, Option.map_some, Option.some.injEq] at hn
     subst hn
-    have := (lastFor_some hl).1
+    have := (lastFor_some hl).1.1
     exact ⟨e, by simp [typed, this, hl], rfl⟩
 
 /-! ### assignments made while the batching flag is set: values are stored, nothing else happens -/
@@ -649,10 +659,10 @@ theorem setPlain_in_batch (c : Cfg) (f : Nat) (w : World) (p : Nat) (v : Int) (h
       by_cases he : (regsFor w p).isEmpty
       · simp [he]
       · simp only [he, Bool.false_eq_true, if_false] at h ⊢
-        have hd := dispatch_in_batch_keeps_vals c ⟨p, getVal w p, v⟩ (sortByPrec (regsFor w p)) f
+        have hd := dispatch_in_batch_keeps_vals c { name := p, old := getVal w p, new := v } (sortByPrec (regsFor w p)) f
           { w with vals := w.vals.set p v } hb
-        have hfl := flags c f (.dispatch (sortByPrec (regsFor w p)) ⟨p, getVal w p, v⟩) { w with vals := w.vals.set p v }
-        generalize run c f (.dispatch (sortByPrec (regsFor w p)) ⟨p, getVal w p, v⟩) { w with vals := w.vals.set p v } = d at h hd hfl ⊢
+        have hfl := flags c f (.dispatch (sortByPrec (regsFor w p)) { name := p, old := getVal w p, new := v }) { w with vals := w.vals.set p v }
+        generalize run c f (.dispatch (sortByPrec (regsFor w p)) { name := p, old := getVal w p, new := v }) { w with vals := w.vals.set p v } = d at h hd hfl ⊢
         obtain ⟨r1, w2, o1⟩ := d
         simp only at h hd hfl ⊢
         cases r1 with
